@@ -5,9 +5,10 @@ import random
 
 NOPRF = {"given": False, "eval": "absent", "byCred": [], "byCredGiven": False}
 NOCPRF = {"kind": "absent", "eval": "absent", "byCred": [], "byCredGiven": False, "badlen": False}
-DOMS = [("o.r1w", "r1", "r1", "ok"), ("o.r1p", "r1", "r1", "ok"), ("o.r1", "absent", "r1", "ok"), ("o.r2", "absent", "r2", "ok"),
+DOMS = [("o.r1w", "r1", "r1", "ok"), ("o.r1p", "r1", "r1", "ok"), ("o.and.r1", "absent", "r1", "ok"), ("o.r2", "absent", "r2", "ok"),
         ("o.evil", "r1", "r1", "OriginRpMissmatch"), ("o.http", "r1", "r1", "UnprotectedOrigin"), ("o.r1w", "com", "com", "InvalidRpId"),
-        ("o.local", "absent", "localhost", "InsecureLocalhostNotAllowed")]
+        ("o.local", "absent", "localhost", "InsecureLocalhostNotAllowed"), ("o.and.evil", "r1", "r1", "OriginRpMissmatch"),
+        ("o.r1", "absent", "r1", "ok"), ("o.and.r1w", "r1", "r1", "ok")]
 STATUSES = [1, 2, 21, 40, 46, 39, 127, 242, 224]
 
 
